@@ -4,6 +4,8 @@ import KyupyVerif.Props.C08
 import KyupyVerif.Props.C04
 import KyupyVerif.Model.WaveCirc
 import KyupyVerif.Proofs.WaveStrip
+import KyupyVerif.Proofs.StripLinkLogic
+import KyupyVerif.Proofs.StripLinkMem
 /-! # C06 — results do not depend on performance options, lane position or code path
 
 What is theorem here:
@@ -29,14 +31,39 @@ What is theorem here:
     (⇒ all waveforms strictly increasing, `C04.mono_timestamps`), capacity of a stem ≤ capacity of its branches;
   - `zero_delay_buffer_not_identity`: without monotonicity the gate-level statement is FALSE (the proved reason
     for known finding D13: polarity-dependent delays can produce a non-monotone stem waveform).
-What is correspondence (harness/c06.py, clause `wave-strip`): the real un-stripped rows satisfy `stripOkB` for the
-real branch ↦ stem map (read off `c_locs`), and `stripOps` of the real un-stripped rows equals the real stripped rows;
-the numeric hypotheses (zero delay on fork inputs, capacities, polarity independence, monotone stems of the real
-un-stripped run) are evaluated per case and, when they hold, the two real runs must agree on every non-branch
-waveform. Not covered by a theorem: the scheduler model `genOps … strip` is not proved equal to `stripOps` of
-`genOps … (strip := false)` (tied per instance instead).
-What is oracle only (harness/c06.py): LogicSim fork stripping, CPU vs mock-GPU kernels, WaveSim lanes and
-`c_prop(sims=k)`, fork stripping with non-monotone stems (known finding D13). -/
+* fork stripping for ALL circuits — the link between the scheduler model and the program transformation, for every
+  netlist whose pin tables and line records refer to each other (`Net.wfB`), every topological order (`orderOKB`) and
+  `forksOKB` (every node scheduled as a fork has kind exactly `__fork__`, nothing on input pins 1–3, and reads a line listed
+  on its driver's output pin or is an undriven interface node):
+  - `stems_characterised`: what the `stems` array of `SimOps` (`stemsOf net true`) holds, chained forks included
+    (`stemWalk` ends, within the fuel `SimOps` uses, at the first driver that is not a driven fork; it stands earlier);
+  - `genOps_strip_link`: the rows scheduled with `strip_forks=True`, as eight-index rows (value sources = operands
+    resolved through the stems, delay lines = the operands), ARE `stripOps` of the rows scheduled with
+    `strip_forks=False`, and the un-stripped rows carry the certificate `stripOkB` for `stemList net` — the structural
+    hypothesis of `strip_equiv(_polind)` holds for all circuits; `genOps_strip_rows` (stripped rows = un-stripped rows
+    minus the branch writers), `genOps_strip_link_sig` (the same in terms of `MapSound.sigOp`, for C08);
+  - `strip_irrelevant_logic` (LogicSim): for any value domain and op semantics in which `BUF1` returns its first operand
+    (`buf1_first_operand`: the generated 2-, 4-, 8-valued dispatchers do), signal-level execution of the stripped and
+    of the un-stripped schedule agree on every non-branch signal and branch(un-stripped) = stem(stripped);
+    instances `strip_irrelevant_logic2/4/8`; `strip_irrelevant_logic_mem`: composed with the soundness of the map certificate
+    (C08) — two accepted map records, one of the un-stripped and one of the stripped simulator, leave the same value in every
+    output slot after memory-level execution (LogicSim storage, model rows);
+  - `strip_equiv_all_circuits` (WaveSim): `strip_equiv_polind` with the structural hypotheses proved and the numeric ones
+    stated on the netlist (zero delay on lines read by forks, capacity of that line ≤ capacity of each branch, …);
+    `strip_equiv_all_circuits_run` likewise from `strip_equiv` (run-time hypothesis `ForkIn`);
+  - `forksOKB` cannot be dropped: `badForkNet` (a node of kind `__FORK__` is scheduled as a fork but gets no stems:
+    with `strip_forks=True` its rows vanish and its readers are not redirected — reproduced on the real code).
+What is correspondence (harness/c06.py, clause `wave-strip`): `genOps`, `stemsOf` = the real `ops` / `c_locs` (C01, exact);
+per case additionally: the real un-stripped rows satisfy `stripOkB` for the real branch ↦ stem map (read off `c_locs`),
+`stripOps` of the real un-stripped rows equals the real stripped rows, `Net.wfB` / `orderOKB` / `forksOKB` hold for the real
+circuit and the real topological order and `stemList` of the model equals the real branch ↦ stem map (driver command
+`forkcert`); the numeric hypotheses (zero delay on fork inputs, capacities, polarity independence, monotone stems of the real
+un-stripped run) are evaluated per case and, when they hold, the two real runs must agree on every non-branch waveform.
+Not covered by a theorem: memory-level execution of the stripped WaveSim (the stripped rows read the stem's memory
+through `c_locs`; for LogicSim this step is proved: `strip_irrelevant_logic_mem`).
+What is oracle only (harness/c06.py): LogicSim fork stripping on the real code (the theorem `strip_irrelevant_logic` is about
+the model), CPU vs mock-GPU kernels, WaveSim lanes and `c_prop(sims=k)`, fork stripping with non-monotone stems (known
+finding D13). -/
 namespace KV.C06
 open KV KV.Sig KV.Wave
 
@@ -317,5 +344,378 @@ example (l : Nat) (hl : exSt.lookup l = none) : simWave exCfg2 (stripOps exSt ex
 
 example : simWave exCfg2 exOps exEnv 15 = ⟨[T.tmin, T.fin 52], T.tmax⟩ ∧
     simWave exCfg2 (stripOps exSt exOps) exEnv 15 = ⟨[T.tmin, T.fin 52], T.tmax⟩ := by decide +kernel
+
+
+/-! ## fork stripping for ALL circuits: the scheduler model and the program transformation
+
+`stemList net` is the branch ↦ stem association list read off the `stems` array of `SimOps` (`stemsOf net true`);
+`forksOKB net order` says that every node of the order that `SimOps` schedules as a fork (lower-cased kind `__fork__`) is a
+fork for `Circuit.forks` too (kind exactly `__fork__`), has nothing connected to input pins 1–3, and either reads a line
+that is listed on the output pin of that line's driver or — undriven — is an interface node. -/
+
+/-- what `stemList` is: its lookup is the `stems` array, its value-source function is `viaStem` (the resolution used by
+    levelisation, the memory map and the map certificate `MapIn.src`) -/
+theorem stemList_spec (net : Net) :
+    (∀ b, (stemList net).lookup b = (stemsOf net true).getD b none) ∧
+    (∀ x, Wave.src (stemList net) x = viaStem (stemsOf net true) x) :=
+  ⟨stemList_lookup net, src_stemList net⟩
+
+/-- what the `stems` array is, for every well-formed netlist: index `x` carries a stem iff `x` is an output line of a
+    `__fork__` node with connected input pin 0 (then that node is the line's driver), and the stem is `stemWalk` from the
+    line the fork reads; along a topological order the walk ends at the first line whose driver is not such a fork
+    (chained forks), that driver stands before the fork, and the stem is not itself a branch -/
+theorem stems_characterised (net : Net) (order : List Nat) (hwf : net.wfB = true) (ho : orderOKB net order = true)
+    (hf : forksOKB net order = true) :
+    (∀ x s, (stemsOf net true).getD x none = some s →
+      ∃ l0, drivenFork net (net.line x).driver = true ∧ (net.node (net.line x).driver).inPin 0 = some l0 ∧
+        some x ∈ (net.node (net.line x).driver).outs ∧ s = stemWalk net net.nodes.size l0) ∧
+    (∀ n l0 x, n < net.nodes.size → drivenFork net n = true → (net.node n).inPin 0 = some l0 →
+      some x ∈ (net.node n).outs → (stemsOf net true).getD x none = some (stemWalk net net.nodes.size l0)) ∧
+    (∀ n l0, n ∈ order → drivenFork net n = true → (net.node n).inPin 0 = some l0 →
+      drivenFork net (net.line (stemWalk net net.nodes.size l0)).driver = false ∧
+      order.idxOf (net.line (stemWalk net net.nodes.size l0)).driver < order.idxOf n ∧
+      (stemsOf net true).getD (stemWalk net net.nodes.size l0) none = none ∧
+      viaStem (stemsOf net true) l0 = stemWalk net net.nodes.size l0) := by
+  refine ⟨?_, ?_, ?_⟩
+  · intro x s h
+    obtain ⟨l0, _, hfk, hp, hout, hs, _⟩ := stems_some hwf h
+    exact ⟨l0, by simp [drivenFork, hfk, hp], hp, hout, hs⟩
+  · intro n l0 x hn hdf hp hx
+    exact stems_of_fork hwf hn (drivenFork_spec hdf).1 hp hx
+  · intro n l0 hn hdf hp
+    obtain ⟨h1, _, h3, h4⟩ := stem_facts hwf ho hf hn hdf hp
+    obtain ⟨_, _, hdrv⟩ := orderOK_spec ho
+    have hlt0 := hdrv n hn (drivenFork_not_src hdf) 0 l0 (inPin_some hp)
+    have hidx : order.idxOf n ≤ order.length := List.idxOf_le_length
+    have hlen := order_length_le ho
+    exact ⟨(stemWalk_spec hwf ho net.nodes.size l0 (mem_of_idxOf_lt hlt0) (by omega)).1, h1, h3, h4⟩
+
+/-- **(1) scheduler ↔ program transformation, every well-formed netlist, every topological order.**
+    The rows `SimOps` schedules with `strip_forks=True` (`genOps … true`), written as eight-index rows — value sources =
+    operands resolved through the stems (`viaStem (stemsOf net true)`), delay lines = the operands themselves (the
+    branches) — ARE `stripOps` of the rows scheduled with `strip_forks=False`; and the un-stripped rows carry the
+    certificate `stripOkB` for the same branch ↦ stem list (chained forks included), i.e. the structural hypothesis of
+    `strip_equiv` / `strip_equiv_polind` holds for all circuits. -/
+theorem genOps_strip_link (tbl : List PrefixRow) (net : Net) (order : List Nat) (hwf : net.wfB = true)
+    (ho : orderOKB net order = true) (hf : forksOKB net order = true) :
+    (genOps tbl net order true).map (fun r => redirect (stemList net) r.toOp) =
+      stripOps (stemList net) ((genOps tbl net order false).map OpRow.toOp) ∧
+    stripOkB (stemList net) net.idx.zero [] ((genOps tbl net order false).map OpRow.toOp) = true :=
+  ⟨genOps_strip_eq_stripOps tbl hwf ho hf, genOps_stripOk tbl hwf ho hf⟩
+
+/-- the same at the level of the raw rows: the stripped schedule is the un-stripped schedule without the rows that write a
+    branch (nothing else changes: same rows, same order, same operand indices) -/
+theorem genOps_strip_rows (tbl : List PrefixRow) (net : Net) (order : List Nat) (hwf : net.wfB = true)
+    (ho : orderOKB net order = true) (hf : forksOKB net order = true) :
+    genOps tbl net order true =
+      (genOps tbl net order false).filter (fun r => ((stemsOf net true).getD r.out none).isNone) := by
+  rw [genOps_strip_filter tbl net order hwf ho hf]
+  congr 1
+  funext r
+  unfold isBranchRow
+  cases (stemsOf net true).getD r.out none <;> rfl
+
+/-- … and in terms of the signal-level rows of the memory-map theorems (`MapSound.sigOp`: operands resolved through
+    `MapIn.src`): for a map record of the stripped simulator, the signal-level program `C08.map_certificate_sound_logic`
+    speaks about is the four-index stripped program of the un-stripped schedule -/
+theorem genOps_strip_link_sig (tbl : List PrefixRow) (p : MapIn) (order : List Nat) (hstrip : p.strip = true)
+    (hwf : p.net.wfB = true) (ho : orderOKB p.net order = true) (hf : forksOKB p.net order = true) :
+    (genOps tbl p.net order true).map (MapSound.sigOp p) =
+      stripOps4 (stemList p.net) ((genOps tbl p.net order false).map OpRow.toOp) := by
+  rw [← genOps_strip_eq_stripOps4 tbl hwf ho hf]
+  apply List.map_congr_left
+  intro r _
+  unfold MapSound.sigOp MapIn.src MapIn.stems
+  rw [hstrip]
+
+/-- **(2) LogicSim: results do not depend on `strip_forks`, every well-formed netlist, every topological order.**
+    Any value domain and any code-indexed op semantics `f` in which `BUF1` returns its first operand. Signal-level
+    execution of the stripped schedule (operands resolved through the stems — the signals whose memory they share) and of
+    the un-stripped schedule agree on every signal that is not a stripped branch; and what the un-stripped run leaves
+    on a written branch (where an output port or flip-flop captures it) is what the stripped run leaves on its stem. -/
+theorem strip_irrelevant_logic {α : Type} (tbl : List PrefixRow) (net : Net) (order : List Nat) (hwf : net.wfB = true)
+    (ho : orderOKB net order = true) (hf : forksOKB net order = true)
+    (f : Nat → List α → α) (dflt : α) (hbuf : ∀ xs, f BUF1 xs = xs.getD 0 dflt) (env : Nat → α) :
+    let st := stemsOf net true
+    let un := (genOps tbl net order false).map OpRow.toOp
+    let sp := (genOps tbl net order true).map (fun r => (⟨r.lut, r.out, r.ins.map (viaStem st)⟩ : Op))
+    (∀ x, st.getD x none = none → exec f sp env x = exec f un env x) ∧
+    (∀ b s, st.getD b none = some s → (∃ p ∈ un, p.out = b) → exec f un env b = exec f sp env s) := by
+  intro st un sp
+  have hsp : sp = stripOps4 (stemList net) un := genOps_strip_eq_stripOps4 tbl hwf ho hf
+  obtain ⟨h1, h2⟩ := strip_logic f dflt hbuf (stemList net) net.idx.zero un env (genOps_stripOk tbl hwf ho hf)
+  rw [hsp]
+  refine ⟨fun x hx => h1 x ?_, fun b s hb hw => h2 b s ?_ hw⟩
+  · rw [stemList_lookup]; exact hx
+  · rw [stemList_lookup]; exact hb
+
+/-- the three logics of `LogicSim` (generated dispatchers): `BUF1` returns its first operand -/
+theorem buf1_first_operand :
+    (∀ xs, semL2n BUF1 xs = xs.getD 0 false) ∧ (∀ xs, semL4 BUF1 xs = xs.getD 0 default) ∧
+    (∀ xs, semL8 BUF1 xs = xs.getD 0 default) := ⟨semL2n_buf1, semL4_buf1, semL8_buf1⟩
+
+/-- (2) for 8-valued `LogicSim` (the 2- and 4-valued instances are obtained the same way from `buf1_first_operand`) -/
+theorem strip_irrelevant_logic8 (net : Net) (order : List Nat) (hwf : net.wfB = true)
+    (ho : orderOKB net order = true) (hf : forksOKB net order = true) (env : Nat → V3) (x : Nat)
+    (hx : (stemsOf net true).getD x none = none) :
+    exec semL8 ((genOps Gen.kindPrefixes net order true).map
+        (fun r => (⟨r.lut, r.out, r.ins.map (viaStem (stemsOf net true))⟩ : Op))) env x =
+      exec semL8 ((genOps Gen.kindPrefixes net order false).map OpRow.toOp) env x :=
+  (strip_irrelevant_logic Gen.kindPrefixes net order hwf ho hf semL8 default semL8_buf1 env).1 x hx
+
+theorem strip_irrelevant_logic2 (net : Net) (order : List Nat) (hwf : net.wfB = true)
+    (ho : orderOKB net order = true) (hf : forksOKB net order = true) (env : Nat → Bool) (x : Nat)
+    (hx : (stemsOf net true).getD x none = none) :
+    exec semL2n ((genOps Gen.kindPrefixes net order true).map
+        (fun r => (⟨r.lut, r.out, r.ins.map (viaStem (stemsOf net true))⟩ : Op))) env x =
+      exec semL2n ((genOps Gen.kindPrefixes net order false).map OpRow.toOp) env x :=
+  (strip_irrelevant_logic Gen.kindPrefixes net order hwf ho hf semL2n false semL2n_buf1 env).1 x hx
+
+theorem strip_irrelevant_logic4 (net : Net) (order : List Nat) (hwf : net.wfB = true)
+    (ho : orderOKB net order = true) (hf : forksOKB net order = true) (env : Nat → V2) (x : Nat)
+    (hx : (stemsOf net true).getD x none = none) :
+    exec semL4 ((genOps Gen.kindPrefixes net order true).map
+        (fun r => (⟨r.lut, r.out, r.ins.map (viaStem (stemsOf net true))⟩ : Op))) env x =
+      exec semL4 ((genOps Gen.kindPrefixes net order false).map OpRow.toOp) env x :=
+  (strip_irrelevant_logic Gen.kindPrefixes net order hwf ho hf semL4 default semL4_buf1 env).1 x hx
+
+/-- **(2') LogicSim at memory level.** Two map records for the same well-formed netlist and topological order — `p1` of the
+    un-stripped simulator (`strip = false`, rows `genOps … false`), `p2` of the stripped one (`strip = true`, rows
+    `genOps … true`, branches aliased to their stems) — that both pass the map certificate (`MapIn.check`, evaluated on the
+    real tables of every instance, C08): after the rows have run on memory, the output slot of every interface node holds
+    the same value in both, provided the captured line is not a branch or is written by the un-stripped schedule (it is
+    when its fork belongs to the order). Any value domain, any op semantics in which `BUF1` returns its first operand. -/
+theorem strip_irrelevant_logic_mem {α : Type} [Inhabited α] (tbl : List PrefixRow) (p1 p2 : MapIn) (order : List Nat)
+    (hnet : p2.net = p1.net) (hs1 : p1.strip = false) (hs2 : p2.strip = true)
+    (hops1 : p1.ops = genOps tbl p1.net order false) (hops2 : p2.ops = genOps tbl p1.net order true)
+    (hwf : p1.net.wfB = true) (ho : orderOKB p1.net order = true) (hf : forksOKB p1.net order = true)
+    (h1 : p1.check = none) (h2 : p2.check = none) (hp1 : 0 < p1.capsMin) (hp2 : 0 < p2.capsMin)
+    (f : Nat → List α → α) (dflt : α) (hbuf : ∀ xs, f BUF1 xs = xs.getD 0 dflt) (m1 m2 : Int → α) (env0 : Nat → α)
+    (h01 : ∀ x ∈ p1.tracked, (∀ o ∈ p1.ops, o.out ≠ x) → m1 (p1.loc x) = env0 x)
+    (h02 : ∀ x ∈ p2.tracked, (∀ o ∈ p2.ops, o.out ≠ x) → m2 (p2.loc x) = env0 x)
+    (n i l : Nat) (hn : (n, i) ∈ p1.net.sNodes.zipIdx) (hp : (p1.net.node n).inPin 0 = some l)
+    (hwr : (stemsOf p1.net true).getD l none = none ∨ ∃ o ∈ p1.ops, o.out = l) :
+    MapSound.memRun p1 (MapSound.rowRW α) (fun o => f o.lut) p1.ops m1 (p1.loc (p1.net.idx.ppo + i))
+      = MapSound.memRun p2 (MapSound.rowRW α) (fun o => f o.lut) p2.ops m2 (p2.loc (p1.net.idx.ppo + i)) := by
+  have e1 := C08.map_certificate_sound_logic p1 h1 hp1 f m1 env0 h01 _ _ (mem_ppoSrcs p1 hn hp)
+  have e2 := C08.map_certificate_sound_logic p2 h2 hp2 f m2 env0 h02 _ _
+    (mem_ppoSrcs p2 (by rw [hnet]; exact hn) (by rw [hnet]; exact hp))
+  have hix1 : p1.ix = p1.net.idx := rfl
+  have hix2 : p2.ix = p1.net.idx := by show p2.net.idx = _; rw [hnet]
+  rw [hix1] at e1
+  rw [hix2] at e2
+  rw [e1, e2]
+  have hsrc1 : p1.src l = l := by
+    show viaStem (stemsOf p1.net p1.strip) l = l
+    rw [hs1]; exact viaStem_false _ _
+  have hsrc2 : p2.src l = viaStem (stemsOf p1.net true) l := by
+    show viaStem (stemsOf p2.net p2.strip) l = _
+    rw [hs2, hnet]
+  have hun : p1.ops.map (MapSound.sigOp p1) = (genOps tbl p1.net order false).map OpRow.toOp := by
+    rw [hops1]
+    exact List.map_congr_left (fun r _ => sigOp_unstripped p1 hs1 r)
+  have hsp : p2.ops.map (MapSound.sigOp p2) = (genOps tbl p1.net order true).map
+      (fun r => (⟨r.lut, r.out, r.ins.map (viaStem (stemsOf p1.net true))⟩ : Op)) := by
+    rw [hops2]
+    apply List.map_congr_left
+    intro r _
+    unfold MapSound.sigOp MapIn.src MapIn.stems
+    rw [hs2, hnet]
+  rw [hsrc1, hsrc2, hun, hsp]
+  obtain ⟨g1, g2⟩ := strip_irrelevant_logic tbl p1.net order hwf ho hf f dflt hbuf env0
+  cases hst : (stemsOf p1.net true).getD l none with
+  | none =>
+    have : viaStem (stemsOf p1.net true) l = l := by unfold viaStem; rw [hst]; rfl
+    rw [this]
+    exact (g1 l hst).symm
+  | some s =>
+    have : viaStem (stemsOf p1.net true) l = s := by unfold viaStem; rw [hst]; rfl
+    rw [this]
+    rcases hwr with h | ⟨o, ho', hoo⟩
+    · rw [hst] at h; cases h
+    · exact g2 l s hst ⟨o.toOp, List.mem_map_of_mem (hops1 ▸ ho'), hoo⟩
+
+/-- **(3) WaveSim: fork stripping for ALL circuits.** Every well-formed netlist, every topological order; the structural
+    hypotheses of `strip_equiv_polind` are proved (`genOps_strip_link`), the numeric ones are stated on the netlist:
+    delays ≥ 0 and capacities ≥ 4 (`cfg.Good`), polarity-independent delays, zero delay on every line read by a driven fork,
+    capacity of that line ≤ capacity of each branch, strictly increasing well-formed input waveforms that fit the
+    branches where a fork reads an input slot directly, terminator `tmax` in the `zero` slot. Then the waveform model of the
+    stripped simulator (eight-index rows: stems as value sources, branches as delay lines) and of the un-stripped
+    simulator agree on every signal that is not a stripped branch, and a written branch of the un-stripped run carries the
+    waveform the stripped run leaves on its stem. -/
+theorem strip_equiv_all_circuits (tbl : List PrefixRow) (net : Net) (order : List Nat) (hwf : net.wfB = true)
+    (ho : orderOKB net order = true) (hf : forksOKB net order = true)
+    (cfg : WCfg) (hpol : C04.PolIndep cfg) (env : Nat → Wv)
+    (hg : cfg.Good ((genOps tbl net order false).map OpRow.toOp))
+    (hz : ∀ n ∈ order, drivenFork net n = true → ∀ l0, (net.node n).inPin 0 = some l0 → ∀ p q, cfg.delay l0 p q = 0)
+    (hcap : ∀ n ∈ order, drivenFork net n = true → ∀ l0, (net.node n).inPin 0 = some l0 →
+      ∀ b, some b ∈ (net.node n).outs → cfg.cap l0 ≤ cfg.cap b)
+    (henv : ∀ l, C04.MonoOk (env l))
+    (hlen : ∀ n ∈ order, drivenFork net n = true → ∀ l0, (net.node n).inPin 0 = some l0 →
+      ∀ b, some b ∈ (net.node n).outs → (env l0).ents.length < cfg.cap b)
+    (hzero : (env net.idx.zero).term = T.tmax) :
+    let st := stemList net
+    let un := (genOps tbl net order false).map OpRow.toOp
+    let sp := (genOps tbl net order true).map (fun r => redirect st r.toOp)
+    (∀ l, st.lookup l = none → simWave cfg sp env l = simWave cfg un env l) ∧
+    (∀ b s, st.lookup b = some s → (∃ p ∈ un, p.out = b) → simWave cfg sp env s = simWave cfg un env b) := by
+  intro st un sp
+  obtain ⟨hlink, hok⟩ := genOps_strip_link tbl net order hwf ho hf
+  have hsp : sp = stripOps st un := hlink
+  rw [hsp]
+  apply strip_equiv_polind cfg hpol st net.idx.zero un env hg hok
+  · intro op hop hb
+    obtain ⟨n, hn, hdf, l0, hp, hi0, _⟩ := fork_row_of_branch tbl hwf ho hop hb
+    rw [hi0]; exact hz n hn hdf l0 hp
+  · intro op hop hb
+    obtain ⟨n, hn, hdf, l0, hp, hi0, hout⟩ := fork_row_of_branch tbl hwf ho hop hb
+    rw [hi0]; exact hcap n hn hdf l0 hp _ hout
+  · exact henv
+  · intro op hop hb
+    obtain ⟨n, hn, hdf, l0, hp, hi0, hout⟩ := fork_row_of_branch tbl hwf ho hop hb
+    rw [hi0]; exact hlen n hn hdf l0 hp _ hout
+  · exact hzero
+
+/-- (3) with the run-time hypothesis of `strip_equiv` instead of polarity independence: every fork row of the UN-STRIPPED
+    run reads a well-formed, strictly increasing waveform that fits the branch (`ForkIn`) -/
+theorem strip_equiv_all_circuits_run (tbl : List PrefixRow) (net : Net) (order : List Nat) (hwf : net.wfB = true)
+    (ho : orderOKB net order = true) (hf : forksOKB net order = true) (cfg : WCfg) (env : Nat → Wv)
+    (hg : cfg.Good ((genOps tbl net order false).map OpRow.toOp))
+    (hz : ∀ n ∈ order, drivenFork net n = true → ∀ l0, (net.node n).inPin 0 = some l0 → ∀ p q, cfg.delay l0 p q = 0)
+    (hrun : ∀ op ∈ (genOps tbl net order false).map OpRow.toOp, ((stemList net).lookup op.out).isSome = true →
+      ForkIn cfg op (op.ins.map (simWave cfg ((genOps tbl net order false).map OpRow.toOp) env))) :
+    let st := stemList net
+    let un := (genOps tbl net order false).map OpRow.toOp
+    let sp := (genOps tbl net order true).map (fun r => redirect st r.toOp)
+    (∀ l, st.lookup l = none → simWave cfg sp env l = simWave cfg un env l) ∧
+    (∀ b s, st.lookup b = some s → (∃ p ∈ un, p.out = b) → simWave cfg sp env s = simWave cfg un env b) := by
+  intro st un sp
+  obtain ⟨hlink, hok⟩ := genOps_strip_link tbl net order hwf ho hf
+  have hsp : sp = stripOps st un := hlink
+  rw [hsp]
+  apply strip_equiv cfg st net.idx.zero un env hg hok ?_ hrun
+  intro op hop hb
+  obtain ⟨n, hn, hdf, l0, hp, hi0, _⟩ := fork_row_of_branch tbl hwf ho hop hb
+  rw [hi0]; exact hz n hn hdf l0 hp
+
+/-! ### non-vacuity: a netlist with a two-branch fork and a chained fork
+`a` (node 0) drives line 0, read by fork 1 with branches 1 and 2; branch 2 is read by the chained fork 2 with branch 3;
+`b` (node 3) drives line 4, fork 4 has branch 5; `6 = AND2(1, 5)`, `7 = OR2(3, 6)`, fork 7 with branch 8 feeds the output. -/
+def forkNet : Net :=
+  { nodes := #[⟨"input", [], [some 0]⟩, ⟨"__fork__", [some 0], [some 1, some 2]⟩, ⟨"__fork__", [some 2], [some 3]⟩,
+               ⟨"input", [], [some 4]⟩, ⟨"__fork__", [some 4], [some 5]⟩, ⟨"AND2", [some 1, some 5], [some 6]⟩,
+               ⟨"OR2", [some 3, some 6], [some 7]⟩, ⟨"__fork__", [some 7], [some 8]⟩, ⟨"output", [some 8], []⟩],
+    lines := #[⟨0, 0, 1, 0⟩, ⟨1, 0, 5, 0⟩, ⟨1, 1, 2, 0⟩, ⟨2, 0, 6, 0⟩, ⟨3, 0, 4, 0⟩, ⟨4, 0, 5, 1⟩, ⟨5, 0, 6, 1⟩,
+               ⟨6, 0, 7, 0⟩, ⟨7, 0, 8, 0⟩],
+    io := [0, 3, 8] }
+def forkOrder : List Nat := [0, 3, 1, 4, 2, 5, 6, 7, 8]
+
+theorem forkNet_ok : forkNet.wfB = true ∧ orderOKB forkNet forkOrder = true ∧ forksOKB forkNet forkOrder = true := by
+  decide +kernel
+
+/-- the stems: branches 1, 2 and — through the chained fork — 3 share line 0; 5 ↦ 4; 8 ↦ 7 -/
+example : stemList forkNet = [(1, 0), (2, 0), (3, 0), (5, 4), (8, 7)] := by decide +kernel
+
+/-- the two schedules of the example (`zero` = 9, input slots 12 and 13) -/
+example : genOps Gen.kindPrefixes forkNet forkOrder false =
+    [⟨0xAAAA, 0, 12, 9, 9, 9⟩, ⟨0xAAAA, 4, 13, 9, 9, 9⟩, ⟨0xAAAA, 1, 0, 9, 9, 9⟩, ⟨0xAAAA, 2, 0, 9, 9, 9⟩,
+     ⟨0xAAAA, 5, 4, 9, 9, 9⟩, ⟨0xAAAA, 3, 2, 9, 9, 9⟩, ⟨0x8888, 6, 1, 5, 9, 9⟩, ⟨0xEEEE, 7, 3, 6, 9, 9⟩,
+     ⟨0xAAAA, 8, 7, 9, 9, 9⟩] ∧
+    genOps Gen.kindPrefixes forkNet forkOrder true =
+    [⟨0xAAAA, 0, 12, 9, 9, 9⟩, ⟨0xAAAA, 4, 13, 9, 9, 9⟩, ⟨0x8888, 6, 1, 5, 9, 9⟩, ⟨0xEEEE, 7, 3, 6, 9, 9⟩] := by
+  decide +kernel
+
+/-- `genOps_strip_link` applies to it -/
+example : stripOkB (stemList forkNet) 9 [] ((genOps Gen.kindPrefixes forkNet forkOrder false).map OpRow.toOp) = true :=
+  (genOps_strip_link Gen.kindPrefixes forkNet forkOrder forkNet_ok.1 forkNet_ok.2.1 forkNet_ok.2.2).2
+
+/-- `strip_irrelevant_logic` applies to it (8-valued): the OR output, line 7, is the same with and without stripping -/
+example (env : Nat → V3) :
+    exec semL8 ((genOps Gen.kindPrefixes forkNet forkOrder true).map
+        (fun r => (⟨r.lut, r.out, r.ins.map (viaStem (stemsOf forkNet true))⟩ : Op))) env 7 =
+      exec semL8 ((genOps Gen.kindPrefixes forkNet forkOrder false).map OpRow.toOp) env 7 :=
+  strip_irrelevant_logic8 forkNet forkOrder forkNet_ok.1 forkNet_ok.2.1 forkNet_ok.2.2 env 7 (by decide +kernel)
+
+/-- … and the captured branch 8 of the un-stripped run is the stem 7 of the stripped run -/
+example (env : Nat → Bool) :
+    exec semL2n ((genOps Gen.kindPrefixes forkNet forkOrder false).map OpRow.toOp) env 8 =
+      exec semL2n ((genOps Gen.kindPrefixes forkNet forkOrder true).map
+        (fun r => (⟨r.lut, r.out, r.ins.map (viaStem (stemsOf forkNet true))⟩ : Op))) env 7 :=
+  (strip_irrelevant_logic Gen.kindPrefixes forkNet forkOrder forkNet_ok.1 forkNet_ok.2.1 forkNet_ok.2.2
+    semL2n false semL2n_buf1 env).2 8 7 (by decide +kernel)
+    ⟨OpRow.toOp ⟨0xAAAA, 8, 7, 9, 9, 9⟩, List.mem_map_of_mem (by decide +kernel), rfl⟩
+
+/-- map records of the example as the `SimOps` model builds them (levelisation + memory map, `c_reuse` on) -/
+def forkMap (strip : Bool) : MapIn :=
+  let ops := genOps Gen.kindPrefixes forkNet forkOrder strip
+  let stems := stemsOf forkNet strip
+  let lev := levelise forkNet.idx.len stems ops
+  let m := memMap forkNet ops stems lev (fun _ => 1) 1 true
+  { net := forkNet, strip := strip, ops := ops, starts := lev.starts.reverse, locs := m.locs, caps := m.caps,
+    cLen := m.heap.maxSz, capsMin := 1 }
+
+/-- both pass the map certificate; the stripped one aliases the branches 1, 2, 3 to line 0, and needs less memory -/
+theorem forkMap_ok : (forkMap false).check = none ∧ (forkMap true).check = none := by decide +kernel
+example : (forkMap false).cLen = 10 ∧ (forkMap true).cLen = 8 ∧
+    [0, 1, 2, 3].map (forkMap true).loc = [5, 5, 5, 5] ∧ forkNet.idx.ppo = 15 := by decide +kernel
+
+/-- `strip_irrelevant_logic_mem` applies: the output slot (interface position 2, node 8, captured branch 8) -/
+example (m1 m2 : Int → V3) (env0 : Nat → V3)
+    (h01 : ∀ x ∈ (forkMap false).tracked, (∀ o ∈ (forkMap false).ops, o.out ≠ x) → m1 ((forkMap false).loc x) = env0 x)
+    (h02 : ∀ x ∈ (forkMap true).tracked, (∀ o ∈ (forkMap true).ops, o.out ≠ x) → m2 ((forkMap true).loc x) = env0 x) :
+    MapSound.memRun (forkMap false) (MapSound.rowRW V3) (fun o => semL8 o.lut) (forkMap false).ops m1 ((forkMap false).loc (forkNet.idx.ppo + 2))
+      = MapSound.memRun (forkMap true) (MapSound.rowRW V3) (fun o => semL8 o.lut) (forkMap true).ops m2 ((forkMap true).loc (forkNet.idx.ppo + 2)) :=
+  strip_irrelevant_logic_mem Gen.kindPrefixes (forkMap false) (forkMap true) forkOrder rfl rfl rfl rfl rfl
+    forkNet_ok.1 forkNet_ok.2.1 forkNet_ok.2.2 forkMap_ok.1 forkMap_ok.2 (by decide) (by decide)
+    semL8 default semL8_buf1 m1 m2 env0 h01 h02 8 2 8 (by decide +kernel) (by decide +kernel)
+    (Or.inr ⟨⟨0xAAAA, 8, 7, 9, 9, 9⟩, by decide +kernel, rfl⟩)
+
+/-- polarity-independent delays, zero on the lines read by forks (0, 2, 4, 7) -/
+def forkCfg : WCfg := ⟨fun l _ _ => if l = 0 ∨ l = 2 ∨ l = 4 ∨ l = 7 then 0 else if l = 3 then 7 else 2, fun _ => 8⟩
+def forkEnv : Nat → Wv := fun l => if l = 12 then stimWave false 5 true else if l = 13 then stimWave true 40 false else Wv.empty
+
+theorem forkEnv_mono (l : Nat) : C04.MonoOk (forkEnv l) := by
+  unfold forkEnv
+  repeat' split
+  all_goals simp [C04.MonoOk, Wv.ok, WfRem, Incr, stimWave, Wv.empty, T.isFin, T.isTerm, T.lt, T.rank]
+
+theorem forkEnv_len (l : Nat) : (forkEnv l).ents.length < 8 := by
+  unfold forkEnv
+  repeat' split
+  all_goals simp [stimWave, Wv.empty]
+
+theorem forkCfg_nonneg : ∀ l p q, 0 ≤ forkCfg.delay l p q := by
+  intro l p q
+  show (0 : Int) ≤ if l = 0 ∨ l = 2 ∨ l = 4 ∨ l = 7 then 0 else if l = 3 then 7 else 2
+  repeat' split
+  all_goals omega
+
+/-- `strip_equiv_all_circuits` applies to it: all hypotheses hold -/
+example (l : Nat) (hl : (stemList forkNet).lookup l = none) :
+    simWave forkCfg ((genOps Gen.kindPrefixes forkNet forkOrder true).map (fun r => redirect (stemList forkNet) r.toOp)) forkEnv l =
+      simWave forkCfg ((genOps Gen.kindPrefixes forkNet forkOrder false).map OpRow.toOp) forkEnv l :=
+  (strip_equiv_all_circuits Gen.kindPrefixes forkNet forkOrder forkNet_ok.1 forkNet_ok.2.1 forkNet_ok.2.2
+    forkCfg (fun _ _ _ => rfl) forkEnv ⟨forkCfg_nonneg, fun _ _ => by show 4 ≤ 8; decide⟩
+    (by decide +kernel) (fun _ _ _ _ _ _ _ => Nat.le_refl _) forkEnv_mono (fun _ _ _ l0 _ _ _ => forkEnv_len l0) rfl).1 l hl
+
+/-- … and the common result is not trivial: the AND output (line 6) rises at 5 + 2 + 2 and falls at 40 + 2 + 2, the OR output
+    rises two units later and stays high (branch 3, with its own delay 7, has risen at 14) -/
+example : simWave forkCfg ((genOps Gen.kindPrefixes forkNet forkOrder false).map OpRow.toOp) forkEnv 7 = ⟨[T.fin 11], T.tmax⟩ ∧
+    simWave forkCfg ((genOps Gen.kindPrefixes forkNet forkOrder false).map OpRow.toOp) forkEnv 6 = ⟨[T.fin 9, T.fin 44], T.tmax⟩ ∧
+    simWave forkCfg ((genOps Gen.kindPrefixes forkNet forkOrder true).map (fun r => redirect (stemList forkNet) r.toOp)) forkEnv 7
+      = ⟨[T.fin 11], T.tmax⟩ := by decide +kernel
+
+/-- the hypothesis `forksOKB` cannot be dropped: a node whose kind is `__FORK__` is scheduled as a fork (the kind is
+    lower-cased) but gets no stems (`Circuit.forks` holds nodes of kind exactly `__fork__`): with `strip_forks=True` its rows
+    are dropped and its readers are NOT redirected — they read a signal nobody writes (reproduced on the real code: LogicSim output 3333… instead of 0303…) -/
+def badForkNet : Net :=
+  { nodes := #[⟨"input", [], [some 0]⟩, ⟨"INV1", [some 0], [some 1]⟩, ⟨"__FORK__", [some 1], [some 2]⟩,
+               ⟨"INV1", [some 2], [some 3]⟩, ⟨"output", [some 3], []⟩],
+    lines := #[⟨0, 0, 1, 0⟩, ⟨1, 0, 2, 0⟩, ⟨2, 0, 3, 0⟩, ⟨3, 0, 4, 0⟩],
+    io := [0, 4] }
+example : badForkNet.wfB = true ∧ orderOKB badForkNet [0, 1, 2, 3, 4] = true ∧ forksOKB badForkNet [0, 1, 2, 3, 4] = false ∧
+    stemList badForkNet = [] ∧
+    (genOps Gen.kindPrefixes badForkNet [0, 1, 2, 3, 4] true).map (·.out) = [0, 1, 3] ∧
+    (genOps Gen.kindPrefixes badForkNet [0, 1, 2, 3, 4] false).map (·.out) = [0, 1, 2, 3] := by decide +kernel
 
 end KV.C06
